@@ -325,7 +325,7 @@ public:
   #endif
   constexpr mdarray (const mdspan<V,E,L,A>& other, const Alloc& a)
     : container_(other.size(), a)
-    , mapping_(other.mapping_)
+    , mapping_(other.mapping())
   {
     init_from_mdspan(other);
   }
